@@ -563,7 +563,32 @@ impl Render for AnyViewWithAttrs {
 
     fn rebuild(self, state: &mut Self::State) {
         self.view.rebuild(&mut state.view);
-        self.attrs.rebuild(&mut state.attrs);
+        // `build` lays the attribute states out attribute by attribute, one state per
+        // top-level element. After the rebuild the view may show other elements (a view of
+        // another type, a list that grew or shrank): keep the state of an attribute on an
+        // element that is still there, build the attribute on an element that is new.
+        let elements = state.view.elements();
+        let per_attr = if self.attrs.is_empty() {
+            0
+        } else {
+            state.attrs.len() / self.attrs.len()
+        };
+        let mut old = std::mem::take(&mut state.attrs).into_iter();
+        let mut attrs = Vec::with_capacity(elements.len() * self.attrs.len());
+        for attr in self.attrs {
+            let mut prev = old.by_ref().take(per_attr).collect::<Vec<_>>();
+            for el in &elements {
+                match prev.iter().position(|state| state.element() == el) {
+                    Some(idx) => {
+                        let mut state = prev.swap_remove(idx);
+                        attr.clone().rebuild(&mut state);
+                        attrs.push(state);
+                    }
+                    None => attrs.push(attr.clone().build(el)),
+                }
+            }
+        }
+        state.attrs = attrs;
     }
 }
 
